@@ -151,7 +151,17 @@ func runC04(c *core.Ctx, crashes bool) {
 		if nseg >= 3 && ch.Bool(2, 3) {
 			parts[len(parts)-1] = "kitty" // the class most tokens live in
 		}
+		if ch.Bool(1, 2) { // the shape of a one-hop voucher path: <first>/<chain>/<x>/<victim class>
+			parts = []string{parts[0], w.Nodes[ch.Int(len(w.Nodes))].Name, segs[ch.Int(len(segs))], "kitty"}
+		}
 		classes = append(classes, strings.Join(parts, "/"))
+	}
+	lookalikes := classes[len(classes)-6:]
+	pickClass := func() string {
+		if ch.Bool(1, 2) {
+			return lookalikes[ch.Int(len(lookalikes))]
+		}
+		return classes[ch.Int(len(classes))]
 	}
 	ids := []string{"aaa", "bbb", "xx1"}
 	xfers := 0
@@ -165,7 +175,7 @@ func runC04(c *core.Ctx, crashes bool) {
 		c.Step("c04-seed")
 		u := w.Users[ch.Int(len(w.Users))]
 		e.IssueNFTDenom(n, u, "kitty")
-		e.IssueNFTDenom(n, u, classes[ch.Int(len(classes))])
+		e.IssueNFTDenom(n, u, pickClass())
 		_, cls := n.NFTSnapshot()
 		for k := 0; k < 3 && len(cls) > 0; k++ {
 			e.MintNFT(n, u, cls[ch.Int(len(cls))], ids[ch.Int(len(ids))], w.Users[ch.Int(len(w.Users))])
@@ -189,7 +199,7 @@ func runC04(c *core.Ctx, crashes bool) {
 		}
 		switch ch.Pick([]int{6, 10, 4, 2, 22, 40, 6}) {
 		case 0:
-			e.IssueNFTDenom(n, u, classes[ch.Int(len(classes))])
+			e.IssueNFTDenom(n, u, pickClass())
 		case 1:
 			if len(cls) > 0 {
 				// the same small id set in every class: ids collide with escrowed tokens on purpose
